@@ -6,9 +6,8 @@ import Pose.Model.Convert
 
 * `c11.from_matrix <SO3|SE3|Sim3|RxSO3> <33|34|44> <check 0|1> <n> <rtol> <atol> nums…`
   `n` items, each `9 | 12 | 16` numbers row-major → `ok` flattened storage of the `n` results, or
-  `err notOrthogonal | detNotOne | notFullRank | nonFinite`.  The determinant kernel is instantiated by the
-  cofactor formula `Mat3.det` (its contract *is* that formula; the harness checks `torch.det` against
-  `c11.det` separately).
+  `err notOrthogonal | detNotOne | notFullRank | nonFinite`.  The determinant kernel is instantiated by `detB`
+  (cofactor formula, rounding residue snapped to 0; the harness checks `torch.det` against `c11.det` separately).
 * `c11.region <atol> 9 nums`  → index `0..3` of the selected candidate and the four `t_i`
 * `c11.warn <lay> <check> <rtol> <atol> nums…` → `1` iff the 4×4 last-row warning is issued
 * `c11.det 9 nums`, `c11.euler2SO3 r p y`, `c11.euler <eps> x y z w` (→ roll pitch yaw flag),
@@ -18,6 +17,16 @@ namespace PP.Driver
 open PP Wire
 
 def m3 (l : List B) (o : Nat := 0) : Mat3 B := ⟨v3 l o, v3 l (o+3), v3 l (o+6)⟩
+
+def l1 (v : Vec3 B) : B := BigF.add (BigF.add (BigF.abs v.x) (BigF.abs v.y)) (BigF.abs v.z)
+
+/-- stand-in for the determinant kernel: the cofactor formula in 192-bit arithmetic, with values below
+`2⁻¹⁴⁰·‖r0‖₁‖r1‖₁‖r2‖₁` (pure rounding residue of the 192-bit sums on an exactly singular matrix) snapped to `0`.
+It meets the contract `detK M = det M` to `2⁻¹⁴⁰` of the natural scale, far inside every tolerance used. -/
+def detB (M : Mat3 B) : B :=
+  let d := M.det
+  let sc := BigF.mul (BigF.mul (l1 M.r0) (l1 M.r1)) (l1 M.r2)
+  if BigF.le (BigF.abs d) (BigF.scale2 sc (-140)) then BigF.zero else d
 
 def layOf (s : String) : Except String (Layout × Nat × Nat) :=
   match s with
@@ -57,7 +66,7 @@ def opsC11 : List (String × Handler) := [
         | rtol :: atol :: data =>
           if data.length != n * rows * cols then throw s!"arity:{data.length}" else
           let ms := (chunks (rows * cols) n data).map (matIn lay rows cols)
-          match fromMatrixBatch ty Mat3.det (chk == 1) rtol atol ms with
+          match fromMatrixBatch ty detB (chk == 1) rtol atol ms with
           | .ok out => return fmt out.flatten
           | .error e => throw e.name
         | _ => throw "arity"
@@ -82,7 +91,7 @@ def opsC11 : List (String × Handler) := [
           return (if lastRowWarn (chk == 1) rtol atol (matIn lay rows cols data) then "1:0" else "0:0")
         | _ => throw "arity"
       | _ => throw "arity"),
-  ("c11.det", numeric fun xs => if xs.length != 9 then .error "arity" else .ok [(m3 xs).det]),
+  ("c11.det", numeric fun xs => if xs.length != 9 then .error "arity" else .ok [detB (m3 xs)]),
   ("c11.euler2SO3", numeric fun xs => if xs.length != 3 then .error "arity" else .ok (euler2SO3 (v3 xs)).toList),
   ("c11.euler", numeric fun xs =>
       match xs with
